@@ -41,6 +41,7 @@ pub fn fault() -> impl Strategy<Value = Fault> {
         3 => (prop::sample::select(vec![500u16, 503, 404, 410, 429, 400]), prop::sample::select(vec!["", "internal error", "{\"error\":\"x\"}", "<html>busy</html>"])).prop_map(|(c, b)| Fault::Status(c, b.to_string(), "text/plain".to_string())),
         2 => prop::sample::select(vec!["", "not json", "{\"version\":", "[]", "{}", "null"]).prop_map(|b| Fault::Garbage(b.to_string(), "application/json; charset=utf-8".to_string())),
         1 => Just(Fault::InvalidDoc),
+        2 => (0u8..4).prop_map(Fault::InvalidDocKind),
         1 => Just(Fault::Reset),
     ]
 }
